@@ -31,6 +31,9 @@ Model/Core.vos Model/Core.vok Model/Core.required_vos: Model/Core.v Lib/NumOps.v
 Model/Death.vo Model/Death.glob Model/Death.v.beautified Model/Death.required_vo: Model/Death.v Gen/GenStruct.vo
 Model/Death.vio: Model/Death.v Gen/GenStruct.vio
 Model/Death.vos Model/Death.vok Model/Death.required_vos: Model/Death.v Gen/GenStruct.vos
+Model/Hist.vo Model/Hist.glob Model/Hist.v.beautified Model/Hist.required_vo: Model/Hist.v Gen/GenStruct.vo Gen/GenParams.vo Model/OrderHist.vo
+Model/Hist.vio: Model/Hist.v Gen/GenStruct.vio Gen/GenParams.vio Model/OrderHist.vio
+Model/Hist.vos Model/Hist.vok Model/Hist.required_vos: Model/Hist.v Gen/GenStruct.vos Gen/GenParams.vos Model/OrderHist.vos
 Model/OrderHist.vo Model/OrderHist.glob Model/OrderHist.v.beautified Model/OrderHist.required_vo: Model/OrderHist.v Gen/GenStruct.vo
 Model/OrderHist.vio: Model/OrderHist.v Gen/GenStruct.vio
 Model/OrderHist.vos Model/OrderHist.vok Model/OrderHist.required_vos: Model/OrderHist.v Gen/GenStruct.vos
@@ -64,6 +67,9 @@ Proofs/CoreResult.vos Proofs/CoreResult.vok Proofs/CoreResult.required_vos: Proo
 Proofs/DeathProofs.vo Proofs/DeathProofs.glob Proofs/DeathProofs.v.beautified Proofs/DeathProofs.required_vo: Proofs/DeathProofs.v Gen/GenStruct.vo Model/Death.vo
 Proofs/DeathProofs.vio: Proofs/DeathProofs.v Gen/GenStruct.vio Model/Death.vio
 Proofs/DeathProofs.vos Proofs/DeathProofs.vok Proofs/DeathProofs.required_vos: Proofs/DeathProofs.v Gen/GenStruct.vos Model/Death.vos
+Proofs/HistProofs.vo Proofs/HistProofs.glob Proofs/HistProofs.v.beautified Proofs/HistProofs.required_vo: Proofs/HistProofs.v Gen/GenStruct.vo Gen/GenParams.vo Model/OrderHist.vo Model/Hist.vo
+Proofs/HistProofs.vio: Proofs/HistProofs.v Gen/GenStruct.vio Gen/GenParams.vio Model/OrderHist.vio Model/Hist.vio
+Proofs/HistProofs.vos Proofs/HistProofs.vok Proofs/HistProofs.required_vos: Proofs/HistProofs.v Gen/GenStruct.vos Gen/GenParams.vos Model/OrderHist.vos Model/Hist.vos
 Proofs/OrderHistProofs.vo Proofs/OrderHistProofs.glob Proofs/OrderHistProofs.v.beautified Proofs/OrderHistProofs.required_vo: Proofs/OrderHistProofs.v Gen/GenStruct.vo Model/OrderHist.vo
 Proofs/OrderHistProofs.vio: Proofs/OrderHistProofs.v Gen/GenStruct.vio Model/OrderHist.vio
 Proofs/OrderHistProofs.vos Proofs/OrderHistProofs.vok Proofs/OrderHistProofs.required_vos: Proofs/OrderHistProofs.v Gen/GenStruct.vos Model/OrderHist.vos
@@ -76,6 +82,15 @@ Props/C01.vos Props/C01.vok Props/C01.required_vos: Props/C01.v Lib/NumOps.vos G
 Props/C02.vo Props/C02.glob Props/C02.v.beautified Props/C02.required_vo: Props/C02.v Lib/NumOps.vo Gen/GenProto.vo Model/Core.vo Spec/ProtoSpec.vo Proofs/CoreCons.vo Proofs/CoreResult.vo
 Props/C02.vio: Props/C02.v Lib/NumOps.vio Gen/GenProto.vio Model/Core.vio Spec/ProtoSpec.vio Proofs/CoreCons.vio Proofs/CoreResult.vio
 Props/C02.vos Props/C02.vok Props/C02.required_vos: Props/C02.v Lib/NumOps.vos Gen/GenProto.vos Model/Core.vos Spec/ProtoSpec.vos Proofs/CoreCons.vos Proofs/CoreResult.vos
+Props/C06.vo Props/C06.glob Props/C06.v.beautified Props/C06.required_vo: Props/C06.v Gen/GenStruct.vo Gen/GenParams.vo Model/OrderHist.vo Model/Hist.vo Proofs/HistProofs.vo
+Props/C06.vio: Props/C06.v Gen/GenStruct.vio Gen/GenParams.vio Model/OrderHist.vio Model/Hist.vio Proofs/HistProofs.vio
+Props/C06.vos Props/C06.vok Props/C06.required_vos: Props/C06.v Gen/GenStruct.vos Gen/GenParams.vos Model/OrderHist.vos Model/Hist.vos Proofs/HistProofs.vos
+Props/C10.vo Props/C10.glob Props/C10.v.beautified Props/C10.required_vo: Props/C10.v Gen/GenStruct.vo Gen/GenParams.vo Model/OrderHist.vo Model/Hist.vo Proofs/HistProofs.vo
+Props/C10.vio: Props/C10.v Gen/GenStruct.vio Gen/GenParams.vio Model/OrderHist.vio Model/Hist.vio Proofs/HistProofs.vio
+Props/C10.vos Props/C10.vok Props/C10.required_vos: Props/C10.v Gen/GenStruct.vos Gen/GenParams.vos Model/OrderHist.vos Model/Hist.vos Proofs/HistProofs.vos
+Props/C11.vo Props/C11.glob Props/C11.v.beautified Props/C11.required_vo: Props/C11.v Lib/NumOps.vo Gen/GenProto.vo Model/Core.vo Spec/ProtoSpec.vo Proofs/CoreInit.vo
+Props/C11.vio: Props/C11.v Lib/NumOps.vio Gen/GenProto.vio Model/Core.vio Spec/ProtoSpec.vio Proofs/CoreInit.vio
+Props/C11.vos Props/C11.vok Props/C11.required_vos: Props/C11.v Lib/NumOps.vos Gen/GenProto.vos Model/Core.vos Spec/ProtoSpec.vos Proofs/CoreInit.vos
 Props/C12.vo Props/C12.glob Props/C12.v.beautified Props/C12.required_vo: Props/C12.v Lib/NumOps.vo Gen/GenProto.vo Gen/GenStruct.vo Model/Core.vo Spec/ProtoSpec.vo Proofs/CoreCons.vo Proofs/CoreResult.vo Proofs/CoreLife.vo Model/Death.vo Proofs/DeathProofs.vo
 Props/C12.vio: Props/C12.v Lib/NumOps.vio Gen/GenProto.vio Gen/GenStruct.vio Model/Core.vio Spec/ProtoSpec.vio Proofs/CoreCons.vio Proofs/CoreResult.vio Proofs/CoreLife.vio Model/Death.vio Proofs/DeathProofs.vio
 Props/C12.vos Props/C12.vok Props/C12.required_vos: Props/C12.v Lib/NumOps.vos Gen/GenProto.vos Gen/GenStruct.vos Model/Core.vos Spec/ProtoSpec.vos Proofs/CoreCons.vos Proofs/CoreResult.vos Proofs/CoreLife.vos Model/Death.vos Proofs/DeathProofs.vos
